@@ -14,12 +14,12 @@ MCInit ==
   \E L \in 0..MaxL, lg \in 0..1, ld \in 0..1 :
     /\ (L = 0 \/ L >= lg + ld + 1)
     /\ \E s \in Labels(L), e \in Labels(L), mm \in {<<0, 3>>, <<3, 3>>, <<4, 3>>, <<0, 1>>},
-          er \in {"raise", "skip", "ignore", "replace"}, fa \in {"raise", "ignore"} :
+          er \in {"raise", "skip", "ignore", "replace"}, fa \in {"raise", "ignore"}, pr \in BOOLEAN :
          /\ (L + 3 * s + 5 * e + 7 * lg + 11 * ld + 13 * mm[1] + 17 * ErrIdx(er)) % NShards = Shard
          /\ \E f \in [1..L -> Kinds] :
               /\ NFaults(f, L) <= MaxFaults
               /\ InitWith([L |-> L, lags |-> lg, leads |-> ld, start |-> s, end |-> e, min |-> mm[1], max |-> mm[2],
-                           errors |-> er, failures |-> fa, fault |-> f])
+                           errors |-> er, failures |-> fa, fault |-> f, prior |-> pr])
 
 EmitRec == [cfg |-> cfg, range |-> Range, visited |-> visited, flags |-> flags, per |-> per, res |-> res]
 EmitInv == Done => PrintT(ToJson(EmitRec))
